@@ -79,6 +79,14 @@ def gen_problem(rng):
             specs.append(("S", z + unit(rng, n) * (r - margin), r))
         elif k == "H":
             a = unit(rng, n) * float(10 ** rng.uniform(-0.5, 0.5))
+            if n >= 2 and rng.random() < 0.35:
+                # ordering constraint x_i <= x_j + c (normal e_i - e_j: components sum to zero) or one coordinate
+                a = np.zeros(n)
+                i, j = rng.choice(n, size=2, replace=False)
+                a[i] = 1.0
+                if rng.random() < 0.7:
+                    a[j] = -1.0
+                a *= float(rng.choice([1.0, -1.0, 0.5, 2.0]))
             specs.append(("H", a, float(np.dot(a, z)) + margin * float(np.linalg.norm(a))))
         else:
             specs.append(("B", z - margin * rng.uniform(1, 3, size=n), z + margin * rng.uniform(1, 3, size=n)))
